@@ -283,6 +283,52 @@ def check_date_keywords(run):
                               {"class": "Date", "year": y, "octets": out, "year_octet_means": "any year" if out[1] == 255 else 1900 + out[1]})
 
 
+def check_date_time_strings(run):
+    """the text forms of Date and Time: what the text says is what is stored and sent, or the text is refused - a year the
+    octet has no room for does not become "any year", a fraction of a second is read as a fraction"""
+    from bacpypes.primitivedata import Date, Time, Tag
+    from bacpypes.comm import PDUData
+
+    def octets(obj):
+        tag = Tag()
+        obj.encode(tag)
+        pdu = PDUData()
+        tag.encode(pdu)
+        return bytes(pdu.pduData)
+
+    for y in (1900, 1999, 2000, 2024, 2154, 2155, 2156, 2200, 2411, 9999):
+        for fmt in ("%d-06-15", "6/15/%d", "15-Jun-%d"):
+            text = fmt % y
+            run.case(("date-text", text), sample=None)
+            try:
+                out = octets(Date(text))
+            except Exception as err:
+                run.count("refusals")
+                run.seen("refusal_types", type(err).__name__)
+                if 1900 <= y <= 2154 and fmt == "%d-06-15":
+                    run.violation("refused-representable-value/kind10/%s" % type(err).__name__, {"class": "Date", "text": text, "error": repr(err)[:100]})
+                continue
+            run.count("octets_compared")
+            if not (1900 <= y <= 2154) or out[1] != y - 1900 or out[2:4] != bytes([6, 15]):
+                run.violation("silently-altered-value/kind10/year-text", {"class": "Date", "text": text, "octets": out,
+                                                                         "year_octet_means": "any year" if out[1] == 255 else 1900 + out[1]})
+    for frac, want in ((".5", 50), (".50", 50), (".05", 5), (".5", 50), (".00", 0), (".0", 0), (".99", 99), (".09", 9), (".10", 10), (".1", 10),
+                       (".123", None), (".005", None), (".100", None), ("", 0)):
+        text = "12:34:56" + frac
+        run.case(("time-text", text), sample=None)
+        try:
+            out = octets(Time(text))
+        except Exception as err:
+            run.count("refusals")
+            run.seen("refusal_types", type(err).__name__)
+            if want is not None:
+                run.violation("refused-representable-value/kind11/%s" % type(err).__name__, {"class": "Time", "text": text, "error": repr(err)[:100]})
+            continue
+        run.count("octets_compared")
+        if want is None or out[1:] != bytes([12, 34, 56, want]):
+            run.violation("silently-altered-value/kind11/fraction-text", {"class": "Time", "text": text, "octets": out, "hundredths_sent": out[4]})
+
+
 def check_unrepresentable_context(run, cls, v):
     """tag numbers that do not fit the one-octet extended tag number: refused, never wrapped into another number"""
     from bacpypes.primitivedata import Tag
@@ -383,6 +429,7 @@ def main():
 
     if run.shard[0] == 0:
         check_date_keywords(run)
+        check_date_time_strings(run)
     rot = 0
     index = 0
     for cls in classes:
